@@ -9,7 +9,7 @@ def run(rep, tier, seed):
                 "expression kind (24 representatives + every kind nested in every child slot of every expression parent) in every "
                 "expression slot of every statement (22 slots), every statement kind in every list slot of every statement parent; "
                 "expected: the node list of the template by node type; real: parse, utils.Walk with a visitor that descends with "
-                "VisitorContext.Visit; no panic, no node twice, bag of node types equal (ListNode/catchNode containers at most once)")
+                "VisitorContext.Visit; no panic, no node twice, bag of node types equal (ListNode/catchNode containers at most once). History probe: a fixed catalogue of executable templates (jet.Func and reflected calls with a piped value and 0..8 written arguments in colon, call and explicit-slot forms, blocks, range, try, include, exec, return) is walked, executed once and twice, and walked again: node list and tree text unchanged")
     vec = os.path.join(wd, "walk.ndjson")
     with open(vec, "w") as sink:
         r = run_tlc(wd, "JetWalk.tla", "MC_Walk.cfg", workers=12, heap="6g", timeout=3000, keep_vecs=False, vec_sink=sink, deque=True)
